@@ -306,7 +306,7 @@ func (fr *Frame) atCall(st *State, name string, args []Val, pos token.Pos) {
 		for k, a := range args {
 			env.vars[fmt.Sprintf("arg%d", k)] = a
 		}
-		t := env.trBool(c.E)
+		t := trBoolTol(env, c, "false")
 		u.oblige(st, "at", fmt.Sprintf("%s/at:%s", top.fnLabel(), clauseName(c, i)), t, pos, c, "at call "+name+": "+c.Src)
 		// asserted here, hence available as a fact from here on (assert-then-assume)
 		u.assumeG(st, t)
@@ -1057,4 +1057,24 @@ func (fr *Frame) preRegisterGhosts() {
 		}
 	}
 	visit(fr.fn, 0)
+}
+
+// trBoolTol: see trInvariantTol - a clause naming a variable that no longer exists counts as failed, not as an engine error
+func trBoolTol(env *Env, c *Clause, dflt string) (t string) {
+	defer func() {
+		if r := recover(); r != nil {
+			if us, ok := r.(unsupported); ok && clauseStale(us.msg) {
+				env.u.note("clause cannot be evaluated on this code (%s): %s", us.msg, c.Src)
+				t = dflt
+				return
+			}
+			panic(r)
+		}
+	}()
+	return env.trBool(c.E)
+}
+
+// clauseStale: the clause refers to something this version of the function does not have (a local variable, a call)
+func clauseStale(msg string) bool {
+	return strings.Contains(msg, "unknown identifier") || strings.Contains(msg, "no such call seen yet")
 }
